@@ -16,8 +16,9 @@ EXTENDS Integers, Sequences, FiniteSets, TLC
 
 CONSTANTS Bug, MaxReq
 
-Routes == {"deleteSnapshot", "plainLocked", "noLock", "replicaStart"}
-Classes == {"valid", "malformed"}
+Routes == {"deleteSnapshot", "plainLocked", "noLock", "replicaStart", "lockedBackendCall"}
+\* "backendfails": a well-formed request whose call to a replica fails (the handler's error path)
+Classes == {"valid", "malformed", "backendfails"}
 
 \* handler programs (as the property requires them; Bug switches the as-coded ones on)
 Prog(r, c) ==
@@ -27,6 +28,13 @@ Prog(r, c) ==
             ELSE <<"lock", "unlock", "end">>
       [] r = "plainLocked" -> <<"lock", "unlock", "end">>
       [] r = "noLock" -> <<"end">>
+      \* controller resize / snapshot / revert: the backend is called under the lock; a failure
+      \* is handled by handleErrorNoLock (the lock is already held).  "relockOnError": the
+      \* locking variant handleError is called instead
+      [] r = "lockedBackendCall" ->
+            IF c = "backendfails" /\ "relockOnError" \in Bug
+            THEN <<"lock", "lock", "unlock", "unlock", "end">>
+            ELSE <<"lock", "unlock", "end">>
       [] r = "replicaStart" ->
             IF "blockingSend" \in Bug THEN <<"lock", "send", "unlock", "end">>
             ELSE <<"lock", "trysend", "unlock", "end">>
@@ -68,6 +76,8 @@ NoDoubleUnlock == alive
 NoLockLeak == (inflight = {}) => ~lockHeld
 \* no handler sits forever on a full queue while it holds the lock
 NoBlockedHandler == \A h \in inflight : ~(h.prog[h.pc] = "send" /\ queue >= 5 /\ h.holds)
+\* no handler waits for a mutex it holds itself (sync.RWMutex is not re-entrant)
+NoSelfDeadlock == \A h \in inflight : ~(h.prog[h.pc] = "lock" /\ h.holds)
 StillServes == []<>(inflight = {})
 
 \* ---- replica REST: which action is offered in which state (replica/rest NewReplica)
